@@ -4,7 +4,7 @@ import vlib
 from props import uni
 
 ENVS = [None, "rel/out", "$ROOT/abs/out", "./bindings/./"]
-ROOTS = [0, 1, 2, 3, 4, 5, 6, 7, 8, 9, 10, 11, 12, 13, 14, 17, 18, 19, 20, 21, 22, 23, 24, 31, 34, 44, 49, 52, 53, 54, 55, 56, 57, 60, 62, 64]
+ROOTS = [0, 1, 2, 3, 4, 5, 6, 7, 8, 9, 10, 11, 12, 13, 14, 17, 18, 19, 20, 21, 22, 23, 24, 31, 34, 44, 49, 52, 53, 54, 55, 56, 57, 60, 62, 64, 69]
 PAIRS = [(10, 11), (11, 10), (21, 22), (22, 21), (2, 7), (4, 23), (23, 4), (17, 10), (10, 17), (34, 31), (7, 6), (46, 47), (47, 46), (50, 51), (51, 50)]
 
 
@@ -36,7 +36,9 @@ def run(ctx):
                   "NoExt": "forms/index", "OtherExt": "forms/types.d.mts", "DotDir": "forms/v1.ts/DotDir.ts", "Hidden": ".hidden",
                   "ShDots": "dots/../shared.ts", "UserId": "ids.ts", "shapes::Point": "shapes/Point.ts", "geo::Point": "geo/Point.ts", "Srid": "geo/Srid.ts",
                   "Pt<u8>": "pts.ts", "Pt2": "pts.ts", "DepW": "dep.ts", "PA": "pshared.ts",
-                  "ShDots2": "dots/../shared.ts", "HiddenDep": ".generated/HiddenDep.ts", "DotA": ".dotshared.ts", "UsesDotNames": "UsesDotNames.ts"}
+                  "ShDots2": "dots/../shared.ts", "HiddenDep": ".generated/HiddenDep.ts", "DotA": ".dotshared.ts", "UsesDotNames": "UsesDotNames.ts",
+                  # two instantiations of one generic type with DIFFERENT dependency lists (through an associated type of the argument)
+                  "AsInfoA": "AsInfoA.ts", "AsInfoB": "AsInfoB.ts", "AsInner<AsDriverA>": "AsInner.ts", "AsInner<AsDriverB>": "AsInner.ts", "AsRoot": "AsRoot.ts"}
     for env in ENVS:
         types, dod = uni.describe(binary, root, env)
         base = base_of(dod, root)
